@@ -67,6 +67,32 @@ pub fn transcript_child(args: &[String]) -> i32 {
         let res = r.atomic_operation(s2, Cursor::new(enc_vec_fr(&leaves)), Cursor::new(enc_vec_u8(&rm))).is_ok();
         lines.push(format!("atomic{k} {res} {}", root_hex(&r)));
     }
+    // structured batches: repeated, mirrored and default values inside one parallel batch (equal subtrees, the pair
+    // (a,b) in one half and (b,a) in the other, (x,0)/(0,x)), so that anything a worker remembers between two hashes
+    // of one batch -- and therefore the split of the batch over the pool -- can show in the root
+    {
+        let a = rand_fr(&mut rng);
+        let b = rand_fr(&mut rng);
+        let c = rand_fr(&mut rng);
+        let z = Fr::from(0u64);
+        let pats: Vec<(usize, Vec<Fr>)> = vec![
+            (4096, (0..2048).map(|i| if (i < 1024) == (i % 2 == 0) { a } else { b }).collect()),
+            (8192, vec![c; 1024]),
+            (10_000, (0..1500).map(|_| [a, b, c][rng.gen_range(0..3usize)]).collect()),
+            (12_288, (0..512).map(|i| if (i / 2) % 2 == 0 { [a, z][i % 2] } else { [z, a][i % 2] }).collect()),
+            (16_384, (0..4096).map(|i| [a, b, b, a][(i + i / 1024) % 4]).collect()),
+            (4096 + 512, (0..1024).map(|i| if i % 2 == 0 { b } else { a }).collect()),
+        ];
+        for (k, (start, leaves)) in pats.iter().enumerate() {
+            let res = r.set_leaves_from(*start, Cursor::new(enc_vec_fr(leaves))).is_ok();
+            lines.push(format!("structured{k} {res} {}", root_hex(&r)));
+        }
+        // removals which leave (x,0) and (0,x) pairs behind
+        let _ = r.set_leaves_from(0, Cursor::new(enc_vec_fr(&vec![a; 256])));
+        let rm: Vec<u8> = (0..100).map(|i| (2 * i + i / 50) as u8).collect();
+        let res = r.atomic_operation(0, Cursor::new(enc_vec_fr(&[])), Cursor::new(enc_vec_u8(&rm))).is_ok();
+        lines.push(format!("structured-removals {res} {}", root_hex(&r)));
+    }
     let _ = r.set_leaf(4242, Cursor::new(enc_fr(&rc)));
     lines.push(format!("member {}", root_hex(&r)));
     // witness calculation and proof values
@@ -508,6 +534,82 @@ fn hammer(rep: &mut Rep, sh: &Shared, threads: usize, calls_per_thread: usize, s
     rep.countn("concurrent_calls", (threads * calls_per_thread) as u64);
 }
 
+// ---------------------------------------------------------------------------------------------
+// (2b) storm of cheap pure calls: many threads walk over the same few inputs at a high call rate
+// ---------------------------------------------------------------------------------------------
+
+/// The shared-instance monitor mixes cheap and expensive calls, so two cheap calls on related inputs rarely
+/// overlap by nanoseconds. Here 2..16 threads issue only cheap pure calls (Poseidon through three entry
+/// points, hash-to-field, seeded key derivation) over a pool of a few related inputs, each compared with the
+/// from-spec reference value computed beforehand.
+fn storm(rep: &mut Rep, seed: u64, threads: usize, calls_per_thread: usize) {
+    use crate::refhash::*;
+    let mut rng = rng_for(seed, "c18-storm");
+    let a = rand_fr(&mut rng);
+    let b = rand_fr(&mut rng);
+    let c = rand_fr(&mut rng);
+    let pool: Vec<Vec<Fr>> = vec![vec![a], vec![a, b], vec![b, a], vec![a, b, c], vec![c], vec![a, b], vec![a, a], vec![b, a, c, a]];
+    let pool_ref: Vec<Fr> = pool.iter().map(|v| poseidon_ref(v)).collect();
+    let seeds: Vec<Vec<u8>> = vec![b"s".to_vec(), b"seed".to_vec(), rand_bytes(&mut rng, 32), rand_bytes(&mut rng, 33)];
+    let seeds_ref: Vec<(Fr, Fr)> = seeds.iter().map(|x| seeded_keygen_ref(x)).collect();
+    let seeds_ext_ref: Vec<(Fr, Fr, Fr, Fr)> = seeds.iter().map(|x| extended_seeded_keygen_ref(x)).collect();
+    let h2f_ref: Vec<Fr> = seeds.iter().map(|x| hash_to_field_ref(x)).collect();
+    let inflight = AtomicU64::new(0);
+    let barrier = Arc::new(Barrier::new(threads));
+    let t0 = std::time::Instant::now();
+    par_shards(rep, threads, |t, r| {
+        use zerokit_utils::Hasher;
+        let mut lr = rng_for(seed, &format!("c18-storm-{threads}-{t}"));
+        barrier.wait();
+        let mut overlapped = 0u64;
+        for k in 0..calls_per_thread {
+            // all threads walk over the pool in the same order with a small thread-specific phase, so that
+            // equal and prefix-related inputs are in flight at the same time
+            let i = (k + (t % 3)) % pool.len();
+            let kind = if k % 97 == 0 { 3 + lr.gen_range(0..3usize) } else { k / pool.len() % 3 };
+            if inflight.fetch_add(1, Ordering::Relaxed) > 0 {
+                overlapped += 1;
+            }
+            let res = catch(|| -> Option<(&'static str, String)> {
+                match kind {
+                    0 => (rln::hashers::poseidon_hash(&pool[i]) != pool_ref[i]).then(|| ("poseidon_hash", format!("pool[{i}]"))),
+                    1 => (rln::hashers::PoseidonHash::hash(&pool[i]) != pool_ref[i]).then(|| ("PoseidonHash::hash", format!("pool[{i}]"))),
+                    2 => {
+                        let mut o = vec![];
+                        let _ = rln::public::poseidon_hash(Cursor::new(enc_vec_fr(&pool[i])), &mut o);
+                        (o != enc_fr(&pool_ref[i])).then(|| ("public::poseidon_hash", format!("pool[{i}]")))
+                    }
+                    3 => {
+                        let j = i % seeds.len();
+                        (rln::protocol::seeded_keygen(&seeds[j]) != seeds_ref[j]).then(|| ("seeded_keygen", format!("seed[{j}]")))
+                    }
+                    4 => {
+                        let j = i % seeds.len();
+                        (rln::protocol::extended_seeded_keygen(&seeds[j]) != seeds_ext_ref[j]).then(|| ("extended_seeded_keygen", format!("seed[{j}]")))
+                    }
+                    _ => {
+                        let j = i % seeds.len();
+                        (rln::hashers::hash_to_field(&seeds[j]) != h2f_ref[j]).then(|| ("hash_to_field", format!("seed[{j}]")))
+                    }
+                }
+            });
+            inflight.fetch_sub(1, Ordering::Relaxed);
+            r.ev();
+            match res {
+                Ok(None) => {}
+                Ok(Some((what, input))) => r.violation(format!("storm:{what}:differs-from-reference"), json!({"threads": threads, "thread": t, "call_no": k, "input": input})),
+                Err(p) => r.violation("storm:panic".to_string(), json!({"threads": threads, "thread": t, "panic": p.msg, "at": p.loc})),
+            }
+        }
+        r.countn(&format!("storm_calls_overlapping_another_call|threads={threads}"), overlapped);
+        // how much real overlap there was is what makes this leg meaningful
+        let pct = if calls_per_thread > 0 { overlapped * 100 / calls_per_thread as u64 } else { 0 };
+        r.stratum(format!("storm|threads={threads}|overlap-decile={}", pct / 10));
+    });
+    rep.countn(&format!("storm_ms|threads={threads}"), t0.elapsed().as_millis() as u64);
+    rep.countn("storm_calls", (threads * calls_per_thread) as u64);
+}
+
 /// `vh c18-firstuse <seed>`: fresh process; N threads make their first call simultaneously on a new instance
 pub fn firstuse_child(args: &[String]) -> i32 {
     let seed: u64 = args[2].parse().unwrap();
@@ -701,7 +803,7 @@ fn recreate_loop(rep: &mut Rep, seed: u64, cycles: usize) {
 }
 
 pub fn run(rep: &mut Rep, args: &[String]) {
-    rep.rule = "(1) the transcript (roots after 24 batch updates incl. rayon-parallel range writes on a persistent tree, serialized and graph witnesses, proof values, proof generation + verification verdicts, verdicts on a fixed corpus of valid/tampered/truncated messages) of separate processes with RAYON_NUM_THREADS in {1,2,4,16} must have the same SHA-256; (2) every read-only call kind (verify*, get_root/leaf/proof/subtree_root/empty indices/metadata, hash, poseidon_hash, seeded keygen, witness calculation, recover) issued concurrently by 2..64 threads on one shared instance, through &RLN and through *const RLN of the FFI, must return its sequential result; fresh processes race the first use of the lazily initialised globals; (4) create-write-flush-drop-create cycles on one storage location. distinct_nontrivial = distinct (call kind x concurrently in-flight call kind) overlaps actually observed, pool sizes, recreate latency classes".into();
+    rep.rule = "(1) the transcript (roots after 24 batch updates incl. rayon-parallel range writes on a persistent tree, serialized and graph witnesses, proof values, proof generation + verification verdicts, verdicts on a fixed corpus of valid/tampered/truncated messages) of separate processes with RAYON_NUM_THREADS in {1,2,4,16} must have the same SHA-256; (2) every read-only call kind (verify*, get_root/leaf/proof/subtree_root/empty indices/metadata, hash, poseidon_hash, seeded keygen, witness calculation, recover) issued concurrently by 2..64 threads on one shared instance, through &RLN and through *const RLN of the FFI, must return its sequential result; (2b) a storm of cheap pure calls (Poseidon through three entry points, hash-to-field, seeded key derivation) from 2..16 threads walking over the same few related inputs must return the from-spec reference values; fresh processes race the first use of the lazily initialised globals; (4) create-write-flush-drop-create cycles on one storage location. distinct_nontrivial = distinct (call kind x concurrently in-flight call kind) overlaps actually observed, pool sizes, recreate latency classes".into();
     rep.assumptions = vec!["schedules are sampled, not enumerated; a watchdog timeout is inconclusive, not a violation".into()];
     let thorough = rep.thorough();
     let seed = rep.seed;
@@ -719,6 +821,12 @@ pub fn run(rep: &mut Rep, args: &[String]) {
                 hammer(rep, &sh, threads, per.max(8), seed, ffi, &format!("t{threads}{}", if ffi { "ffi" } else { "" }));
                 rep.stratum(format!("shared|threads={threads}|ffi={ffi}"));
             }
+        }
+    }
+    if want("storm") {
+        let per = (if thorough { 400_000 } else { 40_000 }) * scale / 100;
+        for threads in [2usize, 4, 8, 16, 16] {
+            storm(rep, seed.wrapping_add(threads as u64), threads, per.max(64));
         }
     }
     if want("firstuse") {
